@@ -107,6 +107,18 @@ def cases(tier, seed):
             k += 0 if final else 1
             for ci in _cfgs(final, b['stride_fa'], k):
                 yield ('fa3', idx, seed, ci)
+    # larger scope: long records with extrema bunched at one end / with hundreds of extrema; integer-typed copies
+    for what in (('cluster', (2600, 'left')), ('cluster', (2600, 'right')), ('cluster', (1200, 'left')), ('dense', (700,))):
+        for ci in range(0, 288, 24):
+            yield ('long', what, seed, ci)
+    n_int = 0
+    for idx in signals.fa_indices(4, 6, 6):
+        mx, mn = signals.strict_extrema(idx)
+        if len(mx) >= 2 and len(mn) >= 2:
+            n_int += 1
+            if n_int % 5 == 0:
+                for ci in ((n_int * 7) % 288, (n_int * 13 + 100) % 288):
+                    yield ('fa4-int', idx, seed, ci)
     for name in signals.fb_names(b['fb_sizes']):
         k += 1
         stride = b['stride_noise'] if name[0] in ('noise', 'walk') else b['stride_fb']
@@ -115,12 +127,19 @@ def cases(tier, seed):
 
 
 def decode_case(c):
-    return (c[0], tuple(c[1]), c[2], c[3])
+    def tup(v):
+        return tuple(tup(z) for z in v) if isinstance(v, list) else v
+    return (c[0], tup(c[1]), c[2], c[3])
 
 
 def signal_of(case):
     if case[0] == 'fa4':
         return signals.fa_signal(case[1], 4, case[2])
+    if case[0] == 'fa4-int':
+        return np.array(case[1], dtype=float)
+    if case[0] == 'long':
+        from . import c05
+        return c05.signal_of((case[1][0], tuple(case[1][1]), case[2]))
     if case[0] == 'fa3':
         return signals.fa_signal(case[1], 3, case[2])
     return signals.fb_signal(case[1], case[2])
@@ -161,13 +180,14 @@ def check_case(case):
     trans = 0
     classes = set()
     maxcols = 0
-    d = 'x=%s' % (x.tolist() if N <= 12 else 'F_B%r' % (case[1],))
+    d = 'x=%s%s' % (x.tolist() if N <= 12 else '%s%r' % (case[0], case[1]), ' (integer-typed)' if case[0] == 'fa4-int' else '')
     for (rule, par), step, interp, pad in configs:
         o = opts_of(rule, par, step, interp, pad)
         tag = '%s stop=%s%r step=%.3g interp=%s pad=%d' % (d, rule, par, step, interp, pad)
         _state['paths'] = []
         try:
-            imf = sift(x.copy(), **o)
+            xin = x.copy() if case[0] != 'fa4-int' else x.astype(np.int64 if case[2] % 2 == 0 else np.int16)
+            imf = sift(xin, **o)
         except EMDSiftCovergeError:
             return Outcome(cls='converge-error', transitions=max(len(_state['paths']), 1), nontrivial=True)
         except Exception as e:
